@@ -74,15 +74,302 @@ Proof.
   - destruct p; reflexivity.
 Qed.
 
-(* the closure of a move drops exactly the moved line and nothing lands on the target line,
-   so [retain] removes no displaced link *)
-Lemma link_move_row_closure_misses_target row delta p p' :
-  link_move_row_closure row delta p = Some p' -> fst p' <> row + delta.
+(* the closure of a move drops exactly the moved line, and nothing it keeps lands on the
+   target line: [retain] removes no displaced link *)
+Lemma link_move_row_closure_spec row delta p :
+  (fst p = row /\ link_move_row_closure row delta p = None) \/
+  (fst p <> row /\ exists p', link_move_row_closure row delta p = Some p' /\
+                              (delta <> 0 -> fst p' <> row + delta)).
 Proof.
-  destruct p as [r c]. unfold link_move_row_closure.
-  destruct (Z.eqb_spec r row) as [E|E]; [discriminate|].
-  zb1; cbn [andb]; [zb1; cbn [andb]; [zb1; cbn [andb]|]|]; intro H; inversion H; subst; cbn [fst];
-    try lia;
-    (zb1; cbn [andb]; [zb1; cbn [andb]; [zb1; cbn [andb]|]|]; intro H'; try lia).
-  all: try (inversion H; subst; cbn [fst]; lia).
-Admitted.
+  destruct p as [r c]. unfold link_move_row_closure. cbn [fst].
+  destruct (Z.eqb_spec r row) as [E|E]; [left; split; [exact E|reflexivity]|].
+  right. split; [exact E|].
+  repeat (zb1; cbn [andb]); eexists; (split; [reflexivity|]); cbn [fst]; lia.
+Qed.
+
+Lemma link_move_column_closure_spec col delta p :
+  (snd p = col /\ link_move_column_closure col delta p = None) \/
+  (snd p <> col /\ exists p', link_move_column_closure col delta p = Some p' /\
+                              (delta <> 0 -> snd p' <> col + delta)).
+Proof.
+  destruct p as [r c]. unfold link_move_column_closure. cbn [snd].
+  destruct (Z.eqb_spec c col) as [E|E]; [left; split; [exact E|reflexivity]|].
+  right. split; [exact E|].
+  repeat (zb1; cbn [andb]); eexists; (split; [reflexivity|]); cbn [snd]; lia.
+Qed.
+
+(* no two links collide: the key maps are injective where they are defined *)
+Lemma line_map_injective x y at_ delta z :
+  line_map x at_ delta = Some z -> line_map y at_ delta = Some z -> x = y.
+Proof.
+  unfold line_map.
+  repeat (zb1; cbn [andb]); intros H1 H2; try discriminate; inversion H1; inversion H2; lia.
+Qed.
+
+Theorem link_map_injective d p1 p2 q :
+  link_map d p1 = Some q -> link_map d p2 = Some q -> p1 = p2.
+Proof.
+  rewrite !link_map_is_cell_map. destruct p1 as [r1 c1], p2 as [r2 c2], q as [qr qc].
+  destruct d as [s row delta|s col delta|s row delta|s col delta|]; cbn [cell_map].
+  - destruct (line_map r1 row delta) eqn:E1; [|discriminate].
+    destruct (line_map r2 row delta) eqn:E2; [|discriminate].
+    intros H1 H2. inversion H1; inversion H2; subst.
+    f_equal. eapply line_map_injective; eassumption.
+  - destruct (line_map c1 col delta) eqn:E1; [|discriminate].
+    destruct (line_map c2 col delta) eqn:E2; [|discriminate].
+    intros H1 H2. inversion H1; inversion H2; subst.
+    f_equal. eapply line_map_injective; eassumption.
+  - intros H1 H2. inversion H1; inversion H2; subst. f_equal.
+    eapply single_move_injective. congruence.
+  - intros H1 H2. inversion H1; inversion H2; subst. f_equal.
+    eapply single_move_injective. congruence.
+  - intros H1 H2. congruence.
+Qed.
+
+(* ---- block moves --------------------------------------------------------------------- *)
+Lemma link_iter_last_first_rows i n d r c :
+  link_iter_last_first true i n d (Some (r, c)) = Some (iter_last_first i n d r, c).
+Proof.
+  revert r; induction n as [|n IH]; intro r; cbn [link_iter_last_first iter_last_first obind_pos].
+  - reflexivity.
+  - rewrite link_move_row_single. apply IH.
+Qed.
+
+Lemma link_iter_first_first_rows i n d r c :
+  link_iter_first_first true i n d (Some (r, c)) = Some (iter_first_first i n d r, c).
+Proof.
+  revert i r; induction n as [|n IH]; intros i r; cbn [link_iter_first_first iter_first_first obind_pos].
+  - reflexivity.
+  - rewrite link_move_row_single. apply IH.
+Qed.
+
+Lemma link_iter_last_first_cols i n d r c :
+  link_iter_last_first false i n d (Some (r, c)) = Some (r, iter_last_first i n d c).
+Proof.
+  revert c; induction n as [|n IH]; intro c; cbn [link_iter_last_first iter_last_first obind_pos].
+  - reflexivity.
+  - rewrite link_move_column_single. apply IH.
+Qed.
+
+Lemma link_iter_first_first_cols i n d r c :
+  link_iter_first_first false i n d (Some (r, c)) = Some (r, iter_first_first i n d c).
+Proof.
+  revert i c; induction n as [|n IH]; intros i c; cbn [link_iter_first_first iter_first_first obind_pos].
+  - reflexivity.
+  - rewrite link_move_column_single. apply IH.
+Qed.
+
+(* the loops of move_rows_action / move_columns_action carry a link where the block move
+   carries its cell *)
+Theorem link_block_move_rows i n d r c :
+  link_block_move true i n d (r, c) = Some (block_move i (Z.of_nat n) d r, c).
+Proof.
+  rewrite <- iterate_is_block. unfold link_block_move, iterate_moves.
+  destruct (0 <? d); [apply link_iter_last_first_rows | apply link_iter_first_first_rows].
+Qed.
+
+Theorem link_block_move_cols i n d r c :
+  link_block_move false i n d (r, c) = Some (r, block_move i (Z.of_nat n) d c).
+Proof.
+  rewrite <- iterate_is_block. unfold link_block_move, iterate_moves.
+  destruct (0 <? d); [apply link_iter_last_first_cols | apply link_iter_first_first_cols].
+Qed.
+
+(* ---- the store ------------------------------------------------------------------------ *)
+Lemma displace_links_in map l k' v :
+  In (k', v) (displace_links map l) <-> exists k, In (k, v) l /\ map k = Some k'.
+Proof.
+  induction l as [|[k0 v0] l IH]; cbn [displace_links In].
+  - split; [tauto | intros [k [[] _]]].
+  - destruct (map k0) as [k0'|] eqn:E; cbn [In]; rewrite IH; split.
+    + intros [H|[k [H1 H2]]].
+      * inversion H; subst. exists k0. split; [left; reflexivity | exact E].
+      * exists k. split; [right; exact H1 | exact H2].
+    + intros [k [[H|H] H2]].
+      * inversion H; subst. left. congruence.
+      * right. exists k. split; assumption.
+    + intros [k [H1 H2]]. exists k. split; [right; exact H1 | exact H2].
+    + intros [k [[H|H] H2]].
+      * inversion H; subst. congruence.
+      * exists k. split; assumption.
+Qed.
+
+(* insert_rows / delete_rows / insert_columns / delete_columns on the store: a link is at k'
+   afterwards iff it was at some k with cell_map d k = Some k' *)
+Theorem displace_links_follow_cells d l k' v :
+  In (k', v) (displace_links (link_map d) l) <-> exists k, In (k, v) l /\ cell_map d k = Some k'.
+Proof.
+  rewrite displace_links_in. split; intros [k [H1 H2]]; exists k; split; try exact H1.
+  - rewrite <- link_map_is_cell_map. exact H2.
+  - rewrite link_map_is_cell_map. exact H2.
+Qed.
+
+(* ===================================================================================== *)
+(** * Conditional-format corners                                                            *)
+
+Theorem cf_corner_is_cell_map d s p :
+  disp_sheet d = Some s -> cf_corner d s p = cell_map d p.
+Proof.
+  destruct p as [row col].
+  destruct d as [s' dr delta|s' dc delta|s' mr delta|s' mc delta|]; cbn [disp_sheet]; intro H;
+    inversion H; subst; unfold cf_corner; cbn [cf_row cf_col cell_map fst snd]; rewrite Z.eqb_refl.
+  - unfold line_map. zc.
+  - unfold line_map. zc.
+  - unfold single_move. zc.
+  - unfold single_move. zc.
+Qed.
+
+Theorem cf_corner_other_sheet d s s' p :
+  disp_sheet d = Some s' -> s <> s' -> cf_corner d s p = Some p.
+Proof.
+  destruct p as [row col].
+  destruct d as [s0 dr delta|s0 dc delta|s0 mr delta|s0 mc delta|]; cbn [disp_sheet]; intros H Hne;
+    inversion H; subst; unfold cf_corner; cbn [cf_row cf_col fst snd];
+    (replace (s' =? s) with false by (symmetry; apply Z.eqb_neq; congruence)); reflexivity.
+Qed.
+
+(* a surviving corner goes where its cell goes *)
+Corollary cf_corner_survives d s p p' :
+  disp_sheet d = Some s -> cf_corner d s p = Some p' -> cell_map d p = Some p'.
+Proof. intros H1 H2. rewrite <- (cf_corner_is_cell_map d s p H1). exact H2. Qed.
+
+(* the validated operations keep rows and columns at or above 1 *)
+Definition disp_valid (d : disp) : Prop :=
+  match d with
+  | DRow _ at_ delta | DCol _ at_ delta => delta < 0 -> 1 <= at_
+  | DRowMove _ i delta | DColMove _ i delta => 1 <= i /\ 1 <= i + delta
+  | DNone => True
+  end.
+
+Theorem cf_rows_stay_positive d s p r c :
+  disp_valid d -> 1 <= fst p -> 1 <= snd p -> cf_corner d s p = Some (r, c) -> 1 <= r /\ 1 <= c.
+Proof.
+  destruct p as [row col]. cbn [fst snd]. intros Hv Hr Hc.
+  destruct d as [s' dr delta|s' dc delta|s' mr delta|s' mc delta|]; unfold cf_corner;
+    cbn [cf_row cf_col fst snd disp_valid] in *.
+  - repeat (zb1; cbn [andb]); intro H; try discriminate; inversion H; subst; lia.
+  - repeat (zb1; cbn [andb]); intro H; try discriminate; inversion H; subst; lia.
+  - repeat (zb1; cbn [andb]); intro H; try discriminate; inversion H; subst; lia.
+  - repeat (zb1; cbn [andb]); intro H; try discriminate; inversion H; subst; lia.
+  - intro H; inversion H; subst; lia.
+Qed.
+
+(* ===================================================================================== *)
+(** * The range against a formula reference to the same range                               *)
+
+Lemma resolve_rel_corner1 s q p1 p2 : resolve q (corner1 (rel_range s q p1 p2)) = p1.
+Proof.
+  destruct p1 as [r c], q as [qr qc]. unfold resolve, corner1, rel_range. cbn. f_equal; lia.
+Qed.
+Lemma resolve_rel_corner2 s q p1 p2 : resolve q (corner2 (rel_range s q p1 p2)) = p2.
+Proof.
+  destruct p2 as [r c], q as [qr qc]. unfold resolve, corner2, rel_range. cbn. f_equal; lia.
+Qed.
+
+Lemma rel_range_not_full s q p1 p2 :
+  is_full_row (rel_range s q p1 p2) = false /\ is_full_col (rel_range s q p1 p2) = false.
+Proof. split; reflexivity. Qed.
+
+(* one corner: the formula's text for it, in terms of the conditional-format arithmetic *)
+Lemma corner_text d s q (a : aref) p :
+  disp_sheet d = Some s -> a_sheet a = s -> resolve q a = p ->
+  a_abs_row a = false -> a_abs_col a = false ->
+  displace_text d false false q a =
+  match cf_corner d s p with
+  | None => ref_error
+  | Some (r, c) =>
+    if r <? 1 then ref_error else
+    match cf_print (r, c) with Some t => t | None => ref_error end
+  end.
+Proof.
+  intros Hd Hs Hr Har Hac. unfold displace_text. rewrite Hs, Hr.
+  rewrite (displace_pos_is_cell_map d s p Hd), <- (cf_corner_is_cell_map d s p Hd).
+  destruct (cf_corner d s p) as [[r c]|]; [|reflexivity].
+  destruct (r <? 1); [reflexivity|].
+  unfold cf_print. cbn [fst snd]. destruct (number_to_column c); [|reflexivity].
+  rewrite Har, Hac. cbn [app]. reflexivity.
+Qed.
+
+(* PROVED outside the defect class: the displaced conditional-format range is the text
+   [stringify] prints for the reference [=...(p1:p2)] held by a formula in any cell q *)
+Theorem cf_range_is_formula_range d s q orig p1 p2 :
+  disp_sheet d = Some s -> cf_defect d s p1 p2 = false ->
+  cf_pair d s orig p1 p2 = displace_range_text d q (rel_range s q p1 p2).
+Proof.
+  intros Hd Hdef. unfold displace_range_text.
+  destruct (rel_range_not_full s q p1 p2) as [F1 F2]. rewrite F1, F2.
+  rewrite (corner_text d s q _ p1 Hd eq_refl (resolve_rel_corner1 s q p1 p2) eq_refl eq_refl).
+  rewrite (corner_text d s q _ p2 Hd eq_refl (resolve_rel_corner2 s q p1 p2) eq_refl eq_refl).
+  unfold cf_defect, cf_corner_deleted, cf_corner_off_grid in Hdef. unfold cf_pair.
+  destruct (cf_corner d s p1) as [[r1 c1]|]; [|discriminate Hdef].
+  destruct (cf_corner d s p2) as [[r2 c2]|]; [|cbn in Hdef; rewrite ?orb_true_r in Hdef; discriminate Hdef].
+  cbn [orb] in Hdef.
+  apply orb_false_iff in Hdef as [Hd1 Hd2].
+  apply orb_false_iff in Hd1 as [Hv1 Hr1]. apply orb_false_iff in Hd2 as [Hv2 Hr2].
+  rewrite Hr1, Hr2. unfold cf_print, number_to_column. cbn [fst snd].
+  apply negb_false_iff in Hv1, Hv2. rewrite Hv1, Hv2. reflexivity.
+Qed.
+
+(* the same for a single-cell range against a single reference *)
+Theorem cf_cell_is_formula_ref d s q orig p :
+  disp_sheet d = Some s ->
+  cf_corner_deleted d s p = false -> cf_corner_off_grid d s p = false ->
+  cf_cell d s orig p =
+  displace_text d false false q
+    {| a_sheet := s; a_row := fst p - fst q; a_col := snd p - snd q; a_abs_row := false; a_abs_col := false |}.
+Proof.
+  intros Hd H1 H2.
+  rewrite (corner_text d s q _ p Hd eq_refl).
+  - unfold cf_corner_deleted, cf_corner_off_grid in *. unfold cf_cell.
+    destruct (cf_corner d s p) as [[r c]|]; [|discriminate H1].
+    apply orb_false_iff in H2 as [Hv Hr]. rewrite Hr.
+    unfold cf_print, number_to_column. cbn [fst snd]. apply negb_false_iff in Hv. rewrite Hv. reflexivity.
+  - destruct p as [r c], q as [qr qc]. unfold resolve. cbn. f_equal; lia.
+  - reflexivity.
+  - reflexivity.
+Qed.
+
+(* inside the class the range is returned unchanged *)
+Theorem cf_range_unchanged_when_corner_deleted d s orig p1 p2 :
+  cf_corner_deleted d s p1 = true \/ cf_corner_deleted d s p2 = true ->
+  cf_pair d s orig p1 p2 = orig.
+Proof.
+  unfold cf_corner_deleted, cf_pair. intros [H|H].
+  - destruct (cf_corner d s p1); [discriminate H | reflexivity].
+  - destruct (cf_corner d s p1); [|reflexivity]. destruct (cf_corner d s p2); [discriminate H | reflexivity].
+Qed.
+
+(* ---- closed witnesses ----------------------------------------------------------------- *)
+Definition t_A3A6 : text := [65; 51; 58; 65; 54].            (* A3:A6 *)
+Definition t_A1XFD1 : text := [65; 49; 58; 88; 70; 68; 49].  (* A1:XFD1 *)
+Definition t_REF_A4 : text := [35; 82; 69; 70; 33; 58; 65; 52].   (* #REF!:A4 *)
+Definition t_A1_REF : text := [65; 49; 58; 35; 82; 69; 70; 33].   (* A1:#REF! *)
+
+(* F25: rows 3-4 deleted under the range A3:A6. The stored text is returned as it is, a formula
+   holding SUM(A3:A6) shows SUM(#REF!:A4), and the cell A6 now lives in A4 *)
+Theorem cf_vs_formula_refuted_deleted_corner :
+  let d := DRow 0 3 (-2) in
+  cf_sqref d 0 t_A3A6 = t_A3A6 /\
+  cf_part d 0 t_A3A6 = cf_pair d 0 t_A3A6 (3, 1) (6, 1) /\
+  displace_range_text d (1, 2) (rel_range 0 (1, 2) (3, 1) (6, 1)) = t_REF_A4 /\
+  cell_map d (3, 1) = None /\ cell_map d (6, 1) = Some (4, 1) /\
+  cf_pair d 0 t_A3A6 (3, 1) (6, 1) <> displace_range_text d (1, 2) (rel_range 0 (1, 2) (3, 1) (6, 1)).
+Proof. vm_compute. repeat split; try reflexivity. discriminate. Qed.
+
+(* new: a corner pushed beyond the last column. One column inserted at B under A1:XFD1: the
+   range stays A1:XFD1 (number_to_column fails), the formula shows A1:#REF! *)
+Theorem cf_vs_formula_refuted_corner_off_grid :
+  let d := DCol 0 2 1 in
+  cf_sqref d 0 t_A1XFD1 = t_A1XFD1 /\
+  cf_part d 0 t_A1XFD1 = cf_pair d 0 t_A1XFD1 (1, 1) (1, 16384) /\
+  displace_range_text d (2, 1) (rel_range 0 (2, 1) (1, 1) (1, 16384)) = t_A1_REF /\
+  cf_corner_deleted d 0 (1, 16384) = false /\
+  cf_pair d 0 t_A1XFD1 (1, 1) (1, 16384) <> displace_range_text d (2, 1) (rel_range 0 (2, 1) (1, 1) (1, 16384)).
+Proof. vm_compute. repeat split; try reflexivity. discriminate. Qed.
+
+(* non-vacuity of the proved clause: an insertion inside A3:A6 *)
+Example cf_range_grows :
+  cf_defect (DRow 0 5 2) 0 (3, 1) (6, 1) = false /\
+  cf_sqref (DRow 0 5 2) 0 t_A3A6 = [65; 51; 58; 65; 56] /\
+  displace_range_text (DRow 0 5 2) (1, 2) (rel_range 0 (1, 2) (3, 1) (6, 1)) = [65; 51; 58; 65; 56].
+Proof. vm_compute. repeat split; reflexivity. Qed.
